@@ -57,6 +57,9 @@ def _m(p, n, b: Binds) -> bool:
             b[p.id] = t
             return True
         return isinstance(n, ast.Name) and n.id == p.id
+    if isinstance(p, ast.Assign) and isinstance(n, ast.AnnAssign) and len(p.targets) == 1 and n.value is not None:
+        # an annotated assignment is the same binding
+        return _m(p.targets[0], n.target, b) and _m(p.value, n.value, b)
     if type(p) is not type(n):
         return False
     if isinstance(p, ast.Constant):
@@ -76,7 +79,15 @@ def _m(p, n, b: Binds) -> bool:
             continue
         pv, nv = getattr(p, field, None), getattr(n, field, None)
         if isinstance(pv, list):
-            if not isinstance(nv, list) or len(pv) != len(nv):
+            if not isinstance(nv, list):
+                return False
+            if field in ("body", "orelse", "finalbody") and pv and isinstance(pv[0], ast.stmt):
+                # statements of a block: the pattern's statements must occur in order; extra
+                # statements in between (logging, pass, bookkeeping) do not matter
+                if not _subseq(pv, nv, b):
+                    return False
+                continue
+            if len(pv) != len(nv):
                 return False
             for x, y in zip(pv, nv):
                 if isinstance(x, ast.AST):
@@ -91,6 +102,21 @@ def _m(p, n, b: Binds) -> bool:
             # AnnAssign vs Assign etc. are distinct types already; plain field mismatch
             return False
     return True
+
+
+def _subseq(pats, nodes, b: Binds) -> bool:
+    """Match pats as an ordered subsequence of nodes (backtracking over bindings)."""
+    if not pats:
+        return True
+    if not nodes and pats:
+        return False
+    for i, n in enumerate(nodes):
+        trial = dict(b)
+        if _m(pats[0], n, trial) and _subseq(pats[1:], nodes[i + 1:], trial):
+            b.clear()
+            b.update(trial)
+            return True
+    return False
 
 
 def find_all(root: ast.AST, src: str, binds: Optional[Binds] = None, local: bool = True) -> List[Tuple[ast.AST, Binds]]:
